@@ -70,7 +70,11 @@ def proto_case(draw):
     req = draw(request_bytes(endpoint))
     n = len(req["hex"]) // 2
     cuts = sorted(draw(st.lists(st.integers(0, n), max_size=4)))
-    return {"endpoint": endpoint, "status": draw(st.sampled_from([200, 503])), "req": req, "cuts": cuts}
+    case = {"endpoint": endpoint, "status": draw(st.sampled_from([200, 503])), "req": req, "cuts": cuts}
+    if cuts and case["status"] == 200 and draw(st.booleans()):
+        # a consumer fails while the request is still arriving: before chunk number `flip` the status turns 503 (it never turns back)
+        case["flip"] = draw(st.integers(1, len(cuts)))
+    return case
 
 
 CPU_BUDGET_S = 2.0
@@ -145,11 +149,12 @@ def run_proto(case: dict) -> Outcome:
     out = Outcome()
     data = bytes.fromhex(case["req"]["hex"])
     status = HealthCheckStatus(case["status"])
+    cur = {"status": status}
     try:
         proto = _HttpServerProtocol(endpoint_name=case["endpoint"], status=status)
     except TypeError:
         # after the D17 repair the protocol reads the status when it answers
-        proto = _HttpServerProtocol(endpoint_name=case["endpoint"], get_status=lambda: status)
+        proto = _HttpServerProtocol(endpoint_name=case["endpoint"], get_status=lambda: cur["status"])
     tr = RecTransport()
     proto.connection_made(tr)  # type: ignore[arg-type]
     cuts = [0] + [c for c in case["cuts"] if 0 < c < len(data)] + [len(data)]
@@ -160,11 +165,17 @@ def run_proto(case: dict) -> Outcome:
     # milliseconds; two seconds of computing is four orders of magnitude away from that.
     t0 = time.process_time()
     with _cpu_budget(CPU_BUDGET_S):
-        for ch in chunks:
+        for ci, ch in enumerate(chunks):
             if tr.closed:
                 break
+            if case.get("flip") is not None and ci == case["flip"]:
+                cur["status"] = HealthCheckStatus(503)
+            nwritten = len(tr.written)
             try:
                 proto.data_received(ch)
+                if len(tr.written) > nwritten and "answered_under" not in cur:
+                    cur["answered_under"] = int(cur["status"])  # the health status in force when the answer was written
+                    cur["answered_at"] = ci
             except Exception:  # noqa: BLE001  asyncio closes *this* connection on an Exception from data_received
                 closed_by_error = True
                 break
@@ -190,12 +201,16 @@ def run_proto(case: dict) -> Outcome:
             if code not in (200, 503, 404):
                 out.v("status-code", f"unexpected status {code}")
             first = chunks[0]
-            is_endpoint_get = first.startswith(f"GET {case['endpoint']} ".encode()) and b"\r\n\r\n" in first
+            # (the pinned server looks at each chunk on its own; one that reassembles a request arriving in several chunks is as
+            #  right - what was received up to the answer counts as the request, too)
+            upto = b"".join(chunks[: cur.get("answered_at", 0) + 1])
+            is_endpoint_get = any(r.startswith(f"GET {case['endpoint']} ".encode()) and b"\r\n\r\n" in r for r in (first, upto))
             if code in (200, 503):
                 if not is_endpoint_get:
                     out.v("status-for-other-request", f"request {first[:60]!r} is not GET {case['endpoint']} but was answered {code}")
-                elif code != case["status"]:
-                    out.v("wrong-health-status", f"health status is {case['status']} but the endpoint answered {code}")
+                elif code != cur.get("answered_under", case["status"]):
+                    out.v("wrong-health-status", f"health status was {cur.get('answered_under', case['status'])} when the answer was written, "
+                          f"but the endpoint answered {code}", flipped=case.get("flip") is not None)
             elif code == 404 and is_endpoint_get:
                 out.v("endpoint-404", f"GET {case['endpoint']} answered 404")
             if not tr.closed:
